@@ -34,6 +34,7 @@ const (
 	aSub                    // field of a struct-valued location
 	aArrIdx                 // element of an array-valued location
 	aGlobal                 // package-level variable
+	aWholeArr               // a whole array kept in an element heap (local array variables)
 )
 
 type addr struct {
@@ -153,6 +154,11 @@ type FnCtx struct {
 	houdiniObs    []*houdiniOb
 	pendingHavoc  []string
 	finalized     bool
+	cellCache     map[string]*ssa.Alloc
+	sobSeen       map[string]bool
+	captured      map[*ssa.Alloc]bool
+	retOrd        map[*ssa.Return]int
+	volatile      map[string]bool
 	extraGuard    string
 	deferFlags    []string
 	curBindings   []ssa.Value
@@ -328,6 +334,22 @@ func (c *FnCtx) oblige(kind string, props []string, guard, goal string, pos toke
 	return o
 }
 
+// strOfBytes builds the string with the bytes A[off .. off+n) and emits its defining axioms for
+// this (ground) array term; nothing is quantified over array-sorted variables.
+func (c *FnCtx) strOfBytes(arr, off, n string) string {
+	t := app("str_of_bytes", arr, off, n)
+	if strings.Contains(t, "!q") || c.sobSeen[t] {
+		return t
+	}
+	c.sobSeen[t] = true
+	c.assume(implies(le("0", n), eq(app("slen", t), n)))
+	k := c.fresh("k")
+	c.assume(forall([][2]string{{k, "Int"}}, implies(and(le("0", k), lt(k, n)), eq(app("sat", t, k), app("bclamp", sel(arr, add(off, k))))), app("sat", t, k)))
+	m := c.fresh("m")
+	c.assume(forall([][2]string{{m, "Int"}}, implies(and(le(off, m), lt(m, add(off, n))), eq(app("sat", t, sub(m, off)), app("bclamp", sel(arr, m)))), sel(arr, m)))
+	return t
+}
+
 func (c *FnCtx) isStrTerm(t string) bool {
 	if c.strConsts[t] || t == "str_empty" {
 		return true
@@ -371,6 +393,9 @@ func (c *FnCtx) heapDecl(name, srt string) {
 // heapGet returns the current term of a heap variable.
 func (c *FnCtx) heapGet(name, srt string) string {
 	c.heapDecl(name, srt)
+	if c.volatile[name] {
+		return c.heapHavoc(name)
+	}
 	if t, ok := c.cur[name]; ok {
 		return t
 	}
@@ -680,10 +705,18 @@ func (c *FnCtx) encode(srt, term string) string {
 	}
 	f := "enc_" + sanitize(srt)
 	g := "dec_" + sanitize(srt)
+	isArr := strings.HasPrefix(srt, "(Array")
 	if !c.declSet[f] {
 		c.declareFun(f, []string{srt}, "Int")
 		c.declareFun(g, []string{"Int"}, srt)
-		c.ctx0(forall([][2]string{{"x", srt}}, eq(app(g, app(f, "x")), "x"), app(f, "x")))
+		if !isArr {
+			c.ctx0(forall([][2]string{{"x", srt}}, eq(app(g, app(f, "x")), "x"), app(f, "x")))
+		}
+	}
+	if isArr && !strings.Contains(term, "!q") && !strings.HasPrefix(term, "any_") {
+		// array-sorted payloads: the injectivity fact is stated per encoded term (quantifying over
+		// array-sorted variables makes the solvers give up)
+		c.assume(eq(app(g, app(f, term)), term))
 	}
 	return app(f, term)
 }
@@ -814,6 +847,12 @@ func (c *FnCtx) addrOf(v ssa.Value) *addr {
 	}
 	// a pointer held in an SMT term
 	p := c.term(v)
+	if at, ok := types.Unalias(pt.Elem()).Underlying().(*types.Array); ok {
+		// pointer to a local array: slice-shaped descriptor over the element heap
+		hn, hs := c.elemHeap(at.Elem())
+		c.heapDecl(hn, hs)
+		return &addr{kind: aWholeArr, heap: hn, base: app("s-arr", p), ty: pt.Elem()}
+	}
 	return c.addrOfPtr(p, pt.Elem())
 }
 
@@ -861,6 +900,8 @@ func (c *FnCtx) load(a *addr) string {
 		return sel2(c.heapGet(a.heap, c.heapSort[a.heap]), a.base, a.idx)
 	case aLocal, aGlobal:
 		return c.heapGet(a.heap, c.heapSort[a.heap])
+	case aWholeArr:
+		return sel(c.heapGet(a.heap, c.heapSort[a.heap]), a.base)
 	case aSub:
 		return app(a.sinfo.fields[a.field], c.load(a.parent))
 	case aArrIdx:
@@ -889,6 +930,9 @@ func (c *FnCtx) store(a *addr, v string) {
 		c.heapSet(a.heap, c.heapSort[a.heap], sto2(h, a.base, a.idx, v))
 	case aLocal, aGlobal:
 		c.heapSet(a.heap, c.heapSort[a.heap], v)
+	case aWholeArr:
+		h := c.heapGet(a.heap, c.heapSort[a.heap])
+		c.heapSet(a.heap, c.heapSort[a.heap], sto(h, a.base, v))
 	case aSub:
 		old := c.load(a.parent)
 		si := a.sinfo
@@ -1240,9 +1284,68 @@ func (c *FnCtx) classifyAllocs() {
 					name += "_" + sanitize(al.Comment)
 				}
 				c.locals[al] = name
+			} else if capturedOnly(al) {
+				// captured only by closures that are called or deferred right here: the cell is
+				// private to this function and those closures
+				name := "L_" + sanitize(al.Name())
+				if al.Comment != "" {
+					name += "_" + sanitize(al.Comment)
+				}
+				c.locals[al] = name
+				c.captured[al] = true
 			}
 		}
 	}
+}
+
+// capturedOnly: the only escaping uses of the Alloc are bindings of closures whose values are
+// used only as the callee of calls and defers of this function.
+func capturedOnly(al *ssa.Alloc) bool {
+	refs := al.Referrers()
+	if refs == nil {
+		return false
+	}
+	for _, r := range *refs {
+		switch u := r.(type) {
+		case *ssa.Store:
+			if u.Val == al {
+				return false
+			}
+		case *ssa.UnOp:
+			if u.Op != token.MUL {
+				return false
+			}
+		case *ssa.DebugRef:
+		case *ssa.MakeClosure:
+			crefs := u.Referrers()
+			if crefs == nil {
+				return false
+			}
+			for _, cr := range *crefs {
+				switch cu := cr.(type) {
+				case *ssa.Call:
+					if cu.Call.Value != u {
+						return false
+					}
+					for _, a := range cu.Call.Args {
+						if a == u {
+							return false
+						}
+					}
+				case *ssa.Defer:
+					if cu.Call.Value != u {
+						return false
+					}
+				case *ssa.DebugRef:
+				default:
+					return false
+				}
+			}
+		default:
+			return false
+		}
+	}
+	return true
 }
 
 func escapes(v ssa.Value, depth int) bool {
